@@ -593,7 +593,6 @@ func (m AccessMode) MarshalText() ([]byte, error) {
 func ParseAcs(b []byte) (AccessMode, error) {
 	m0 := ModeUnset
 
-Loop:
 	for i := 0; i < len(b); i++ {
 		switch b[i] {
 		case 'J', 'j':
@@ -613,11 +612,10 @@ Loop:
 		case 'O', 'o':
 			m0 |= ModeOwner
 		case 'N', 'n':
-			if m0 != ModeUnset {
+			if m0 != ModeUnset || i+1 < len(b) {
 				return ModeUnset, errors.New("AccessMode: access N cannot be combined with any other")
 			}
 			m0 = ModeNone // N means explicitly no access, all bits cleared
-			break Loop
 		default:
 			return ModeUnset, errors.New("AccessMode: invalid character '" + string(b[i]) + "'")
 		}
